@@ -86,7 +86,9 @@ func init() {
 	harnessAPI["verifByte"] = mkVar(types.Uint8)
 	harnessAPI["verifBool"] = func(fr *frame, args []value) value {
 		v := fr.i.newVar(args[0].(string), types.Bool).(sv)
-		fr.i.doms[v.t] = &domain{vals: []uint64{0, 1}}
+		if !fr.i.cfg.NoFastPath {
+			fr.i.doms[v.t] = &domain{vals: []uint64{0, 1}}
+		}
 		return v
 	}
 	harnessAPI["verifFloat64"] = mkVar(types.Float64)
@@ -97,7 +99,7 @@ func init() {
 		n := int(i.intArg(args[1]))
 		v := i.newVar(args[0].(string), types.Int).(sv)
 		p := i.pool
-		if n <= 64 {
+		if n <= 64 && !i.cfg.NoFastPath {
 			d := &domain{}
 			for k := 0; k < n; k++ {
 				d.vals = append(d.vals, uint64(k))
